@@ -1282,3 +1282,35 @@ def stream_once_idle_first(rng):
         stmts.append(["obj", _T("C", None, False, [("k", ["ref", "kk"]), ("v", _F(["e", ["attr", ["var", "kk"], "f2"]]))])])
     return {"version": rng.choice([2, 3]), "options": [], "stmts": stmts}, \
         ["just_once", "count_formula", "once_idle_first"] + (["nick"] if nick else [])
+
+
+def stream_once_after_lookup(rng):
+    """names are looked up (a formula, a reference, a variable) BEFORE the just_once templates of the recipe
+    run in the first iteration; the just_once templates come with and without nicknames; later templates use
+    them by table name and by nickname in every iteration and in continued runs; sometimes an ordinary
+    template of the same table follows (it takes forward-reserved ids)"""
+    first = rng.choice(["formula", "ref_back", "var"])
+    stmts = []
+    if first == "var":
+        stmts.append(["var", "v0", _F(["e", ["add", ["int", 1], ["int", 1]]])])
+        stmts.append(["obj", _T("A", None, False, [("f0", _F(["e", ["var", "v0"]]))])])
+    elif first == "formula":
+        stmts.append(["obj", _T("A", None, False, [("f0", _F(["t", "a"], ["e", ["var", "id"]]))])])
+    else:
+        stmts.append(["obj", _T("A", "aa", False, [("f0", ["int", 1])])])
+        stmts.append(["obj", _T("D", None, False, [("r", ["ref", "aa"])])])
+    n1 = rng.choice([None, None, "jj"])
+    stmts.append(["obj", _T("J", n1, True, [("f1", ["str", "cfg"]), ("f2", ["int", 8])])])
+    if rng.random() < 0.5:
+        stmts.append(["obj", _T("K", rng.choice([None, "kk"]), True, [("f1", ["str", "k"]), ("f2", ["int", 3])])])
+    names = ["J"] + ([n1] if n1 else [])
+    fields = []
+    for q, nm in enumerate(names):
+        fields.append(("r%d" % q, ["ref", nm]))
+        fields.append(("v%d" % q, _F(["e", ["attr", ["var", nm], "f2"]])))
+        fields.append(("s%d" % q, _F(["t", "x"], ["e", ["attr", ["var", nm], "f1"]])))
+    stmts.append(["obj", _T("C", None, False, fields)])
+    if rng.random() < 0.5:
+        stmts.append(["obj", _T("J", None, False, [("f1", ["str", "plain"]), ("f2", ["int", 1])])])
+    return {"version": rng.choice([2, 3]), "options": [], "stmts": stmts}, \
+        ["just_once", "once_after_lookup"] + (["nick"] if n1 else []) + (["var_top"] if first == "var" else [])
